@@ -177,6 +177,67 @@ def run(ctx, rep):
                 else:
                     rep.violated(key, clause, construct=where,
                                  why="lhs - rhs = %s" % A.show(alg.padd(l, r, -1), 2)[:500])
+            # EPB use by service: the per-service accumulators partition the lines the total counts (class
+            # representatives), with the same summand - hence used.epus = Σ_s used.epus_by_srv[s], per step and per year
+            from .c01 import summands, gate_of, component_classes
+            try:
+                tot = summands(get(bc, "used", "epus_t"))
+                parts = []
+                for sname, sp, sv in emap_items(get(bc, "used", "epus_by_srv_t")):
+                    if sp is tm.FALSE:
+                        continue
+                    ss = summands(sv)
+                    parts.append((sname, ss))
+                shape = tot is not None and all(ss is not None for _n, ss in parts)
+            except AnchorMissing:
+                shape = False
+            key = "C04/brk/used.epus=Σsrv/%s" % tag
+            if not shape:
+                rep.underivable(key, "used.epus_t and used.epus_by_srv_t are sums over component lines", construct=where)
+            else:
+                bad = None
+                lam_ids = set(l.id for _it, l in tot)
+                for sname, ss in parts:
+                    for _it, l in ss:
+                        if l.id not in lam_ids:
+                            bad = "the summand of service %s differs from the summand of the total" % sname
+                for cls_name, comp in component_classes(ci):
+                    def count(sm):
+                        n = 0
+                        for it, _l in sm:
+                            g = gate_of(it, comp)
+                            if g is tm.TRUE:
+                                n += 1
+                            elif g is not tm.FALSE:
+                                return None
+                        return n
+                    nt = count(tot)
+                    ns = [count(ss) for _n, ss in parts]
+                    if nt is None or any(x is None for x in ns):
+                        bad = bad or "a gate does not decide class %s" % cls_name
+                    elif nt != sum(ns):
+                        bad = bad or "%s lines: counted %d time(s) in the total, %d time(s) over the services" % (cls_name, nt, sum(ns))
+                if bad:
+                    rep.violated(key, "EPB use by service adds up to the EPB use of the carrier", construct=where, why=bad)
+                else:
+                    rep.discharged(key, "EPB use by service adds up to the EPB use of the carrier (partition of the counted lines)")
+        # weighted energy by service: each entry = total × (use of the service / use of the carrier) (C02's E.3.6 rule,
+        # re-stated) which, with the partition above, makes the by-service values add up to the carrier's total
+        if lm is False:
+            from . import c02
+            from .common import Report
+            sub2 = Report("C02")
+            c02.run(ctx, sub2)
+            bs = [o for o in sub2.obligations if o.key.startswith(("C02/a_by_srv[", "C02/b_by_srv["))]
+            if len(bs) < 12:
+                rep.violated("C04/brk/we-by-srv/anchor", "the by-service weighted energy is analysable", why="%d C02 obligations" % len(bs))
+            for o in bs:
+                k = "C04/brk/we-by-srv/" + o.key[len("C02/"):]
+                if o.status == "discharged":
+                    rep.discharged(k, "weighted energy by service = carrier total × share of the service in the EPB use", nontrivial=False)
+                else:
+                    rep.violated(k, "weighted energy by service adds up to the carrier's weighted energy (each entry = total × use share)",
+                                 construct=o.construct, why=o.why)
         # ---------------------------------------------------------------- (c) area
         if area is None:
             rep.violated("C04/anchor/arearef", "energy_performance has a parameter arearef", construct=where)
